@@ -5,6 +5,7 @@ import (
 	"go/ast"
 	"go/parser"
 	"go/token"
+	"io"
 	"os"
 	"path/filepath"
 	"reflect"
@@ -312,6 +313,38 @@ func runC11(c *fw.Ctx) {
 				}
 				m := c11Laws(c, id, "restorer", rf, df, r.Ast.Nodes, r.Dst.Nodes, string(src))
 				c.Count("expanded_identifiers", int64(m))
+				// the same through the printing entry points (Fprint restores, then prints): the maps
+				// they leave behind describe the ast they created
+				for _, via := range []string{"Restorer.Fprint", "FileRestorer.Fprint"} {
+					var r2 *decorator.Restorer
+					if withImports {
+						r2 = decorator.NewRestorerWithImports("example.com/self", guess.New())
+					} else {
+						r2 = decorator.NewRestorer()
+					}
+					df2 := dst.Clone(df).(*dst.File)
+					var perr error
+					if sig, detail := fw.Try(func() {
+						if via == "Restorer.Fprint" {
+							perr = r2.Fprint(io.Discard, df2)
+						} else {
+							perr = r2.FileRestorer().Fprint(io.Discard, df2)
+						}
+					}); sig != "" {
+						c.Violate("restore-panic", sig, id+" ["+via+"]\n"+detail, string(src))
+						break
+					}
+					if perr != nil {
+						break
+					}
+					rf2, ok := r2.Ast.Nodes[df2].(*ast.File)
+					if !ok || rf2 == nil {
+						c.Violate("restorer/file-unmapped", "restorer/file-unmapped:"+via, id+": after "+via+" the dst file has no *ast.File counterpart in the Restorer's map", string(src))
+						break
+					}
+					c11Laws(c, id+" ["+via+"]", "restorer", rf2, df2, r2.Ast.Nodes, r2.Dst.Nodes, string(src))
+					c.Count("laws_after_fprint", 1)
+				}
 				if n+m > 0 || len(r.Ast.Nodes) >= 50 {
 					c.Nontrivial(id)
 				}
